@@ -9,9 +9,9 @@ root=$(pwd)
 git worktree add -q --detach "$snap" HEAD
 cp -r .deps "$snap/.deps" 2>/dev/null
 ( cd "$snap" && /venv/bin/python tools/seed_matrix.py "$@" ) > "$log" 2>&1
-for m in "$snap"/seeded/*/meta.json; do
-  id=$(basename "$(dirname "$m")")
-  if ! cmp -s "$m" "$root/seeded/$id/meta.json"; then cp "$m" "$root/seeded/$id/meta.json"; fi
+# only the meta files this run rewrote (changed relative to the snapshot's own commit)
+git -C "$snap" status --porcelain -- seeded | awk '{print $2}' | grep 'meta.json$' | while read rel; do
+  cp "$snap/$rel" "$root/$rel"
 done
 git worktree remove --force "$snap"
 echo "matrix done" >> "$log"
